@@ -1,4 +1,5 @@
-SPECIFICATION Spec
+SPECIFICATION FairSpec
+PROPERTY EventuallyDone
 CHECK_DEADLOCK FALSE
 INVARIANT Terminates
 INVARIANT PositiveSums
